@@ -69,15 +69,15 @@ def jobs(tier):
         for d in [None] + list(range(1, n + 1)):
             J.append(job(n, d=d))
     J.append(job(3, pres='list')); J.append(job(4, d=1, pres='list')); J.append(job(4, d=2, pres='dict'))
-    for d in (None, 1, 2):
-        J.append(job(5, d=d, order='desc'))
-    J.append(job(6, d=1, order='desc')); J.append(job(6, d=2, order='desc'))
+    for d in (None, 1, 2, 3):
+        J.append(job(5, d=d, order='desc')); J.append(job(6, d=d, order='desc'))
+    J.append(job(5, d=1)); J.append(job(5, d=2))
     if tier == 'thorough':
-        for d in (None, 1, 2, 3):
+        for d in (None, 3, 4):
             J.append(job(5, d=d))
-        for d in (None, 3):
-            J.append(job(6, d=d, order='desc'))
-        J.append(job(7, d=1, order='desc', mandatory=False))
+        for d in (1, 2, 3):
+            J.append(job(7, d=d, order='desc', mandatory=False))
+        J.append(job(6, d=1, mandatory=False))
     return J
 
 
